@@ -1,6 +1,6 @@
 (* Eval/MarksNI_Index.v — C06: GetAttr, Index (same key), traversals, variable lookup. *)
 From Coq Require Import QArith.
-From HclV Require Import Base.Prelude Cty.Values Cty.Convert Cty.Ops Eval.Impl Eval.MarksNI Eval.MarksNI_Ops.
+From HclV Require Import Base.Prelude Cty.Values Cty.Convert Cty.Ops Eval.Impl Eval.UnknownSound_Base Eval.MarksNI Eval.MarksNI_Ops.
 Open Scope Z_scope.
 
 Lemma assoc_get_map {A B} (f : A -> B) n (l : list (list Z * A)) :
@@ -62,8 +62,8 @@ Qed.
 (* ---- Index with the same key on both sides ---------------------------------------------------- *)
 Lemma wf_unmark v : wf v -> is_mark (fst (unmark v)) = false /\ wf (fst (unmark v)).
 Proof.
-  unfold wf. destruct v; cbn [unmark fst is_mark wfb]; intro H; try (split; [reflexivity|exact H]).
-  apply andb_true_iff in H as [A B]. apply negb_true_iff in A. split; assumption.
+  destruct v; cbn [unmark fst is_mark]; intro H; try (split; [reflexivity|exact H]).
+  apply wf_mark_inv in H as (_ & A & B). split; assumption.
 Qed.
 
 Lemma has_index_list t l1 l2 ku : length l1 = length l2 -> has_index (VList t l1) ku = has_index (VList t l2) ku.
@@ -175,9 +175,12 @@ Qed.
 
 
 (* ---- well-formedness is preserved --------------------------------------------------------------- *)
+Lemma mark_insert_nonnil x l : is_nilm (mark_insert x l) = false.
+Proof. destruct l as [|y r]; cbn [mark_insert]; [reflexivity|]. destruct (x <? y); [reflexivity|]. destruct (x =? y); reflexivity. Qed.
 Lemma wf_with_marks v ms : wf v -> wf (with_marks v ms).
 Proof.
-  unfold wf. destruct ms as [|a r]; [auto|]. destruct v; cbn [with_marks wfb is_mark negb andb]; auto.
+  unfold wf. destruct ms as [|a r]; [auto|]. destruct v; cbn [with_marks wfb is_mark is_nilm negb andb]; auto.
+  intro H. apply andb_true_iff in H as [_ H]. unfold marks_union. cbn [fold_right]. rewrite mark_insert_nonnil. exact H.
 Qed.
 Lemma wf_with_same_marks v s : wf v -> wf (with_same_marks v s).
 Proof. apply wf_with_marks. Qed.
@@ -195,6 +198,21 @@ Proof.
     apply andb_true_iff in H as [A B]; [injection E as <-; exact A|eauto].
 Qed.
 
+Lemma wfl_weaken t (l : list val) :
+  forallb (fun x => ty_eqb (type_of x) t && wfb x) l = true -> forallb wfb l = true.
+Proof.
+  induction l as [|x r IH]; cbn [forallb]; [auto|]. intro H. apply andb_true_iff in H as [A B].
+  apply andb_true_iff in A as [_ A]. rewrite A, (IH B). reflexivity.
+Qed.
+Lemma wfm_weaken t (l : list (list Z * val)) :
+  forallb (fun p => ty_eqb (type_of (snd p)) t && wfb (snd p)) l = true -> forallb (fun p => wfb (snd p)) l = true.
+Proof.
+  induction l as [|x r IH]; cbn [forallb]; [auto|]. intro H. apply andb_true_iff in H as [A B].
+  apply andb_true_iff in A as [_ A]. rewrite A, (IH B). reflexivity.
+Qed.
+Ltac weaken_wf W :=
+  first [apply wfl_weaken in W | apply wfm_weaken in W | idtac].
+
 Lemma get_attr_u_wf x om n : wf x -> wf (fst (get_attr_u x om n)).
 Proof.
   intro W. unfold get_attr_u.
@@ -202,7 +220,7 @@ Proof.
          | |- context [match ?y with _ => _ end] => destruct y eqn:?
          | |- context [if ?y then _ else _] => destruct y eqn:?
          end; cbn [fst]; try apply wf_dyn_val; apply wf_with_marks; try reflexivity;
-    subst; unfold wf in W; cbn [wfb] in W; eapply wf_assoc_get; eassumption.
+    subst; unfold wf in W; cbn [wfb] in W; weaken_wf W; eapply wf_assoc_get; eassumption.
 Qed.
 Lemma get_attr_wf o n : wf o -> wf (fst (get_attr o n)).
 Proof. intro W. rewrite get_attr_unfold. apply get_attr_u_wf, wf_unmark, W. Qed.
@@ -210,7 +228,7 @@ Proof. intro W. rewrite get_attr_unfold. apply get_attr_u_wf, wf_unmark, W. Qed.
 Lemma index_known_wf x ku v : wf x -> index_known x ku = Some v -> wf v.
 Proof.
   unfold index_known, wf. intros W E.
-  repeat bm E; try discriminate E; subst; cbn [wfb] in W;
+  repeat bm E; try discriminate E; subst; cbn [wfb] in W; weaken_wf W;
     try (injection E as <-; reflexivity);
     try (eapply wf_nth_opt; eassumption); try (eapply wf_assoc_get; eassumption).
 Qed.
@@ -223,7 +241,7 @@ Proof.
          | |- context [if ?y then _ else _] => destruct y eqn:?
          end; cbn [fst]; try apply wf_dyn_val; repeat apply wf_with_marks; try reflexivity;
     try (eapply index_known_wf; eassumption);
-    subst; unfold wf in W; cbn [wfb] in W; eapply wf_assoc_get; eassumption.
+    subst; unfold wf in W; cbn [wfb] in W; weaken_wf W; eapply wf_assoc_get; eassumption.
 Qed.
 Lemma index_wf c k : wf c -> wf (fst (index c k)).
 Proof. intro W. rewrite index_unfold. apply index_u_wf, wf_unmark, W. Qed.
@@ -367,8 +385,7 @@ Proof.
       * exfalso. revert E. apply convert_cont_head_err; assumption.
     + destruct v; try discriminate Hp; try discriminate Hc. rewrite convert_mark in E.
       destruct (convert f v want) eqn:C; try discriminate E. injection E as <-.
-      apply wf_with_marks. eapply IH; [|exact C]. unfold wf in *. cbn [wfb] in W.
-      apply andb_true_iff in W as [_ W]. exact W.
+      apply wf_with_marks. eapply IH; [|exact C]. apply wf_mark_inv in W as (_ & _ & W). exact W.
 Qed.
 
 Lemma conv_wf_pd want v r : pd_ty want = true -> wf v -> conv v want = COk r -> wf r.
@@ -389,8 +406,9 @@ Proof.
   repeat match goal with
          | |- context [match ?y with _ => _ end] => destruct y
          | |- context [if ?y then _ else _] => destruct y
-         end; try reflexivity; cbn [wfb];
-    match goal with |- forallb wfb (repeatZ ?x ?n) = true => induction n; cbn; auto end.
+         end; try reflexivity; cbn [wfb forallb type_of]; rewrite ?ty_eqb_refl; try reflexivity;
+    match goal with |- forallb _ (repeatZ ?x ?n) = true =>
+      induction n; cbn [repeatZ forallb type_of wfb]; rewrite ?ty_eqb_refl; auto end.
 Qed.
 
 Lemma wf_list_of (l : list val) : Forall wf l -> forallb wfb l = true.
@@ -428,57 +446,74 @@ Proof. intros H I. rewrite forallb_forall in H. apply H, I. Qed.
 Lemma In_wf_kv (l : list (list Z * val)) p : forallb (fun p => wfb (snd p)) l = true -> In p l -> wf (snd p).
 Proof. intros H I. rewrite forallb_forall in H. apply (H p), I. Qed.
 
+Lemma wf_typed_list w (l : list val) vs (Q : val -> val -> Prop) :
+  Forall2 Q l vs -> (forall x v, In x l -> Q x v -> type_of v = w /\ wf v) ->
+  forallb (fun x => ty_eqb (type_of x) w && wfb x) vs = true.
+Proof.
+  induction 1 as [|x v l vs Hq _ IH]; intro H; cbn [forallb]; [reflexivity|].
+  destruct (H x v (or_introl eq_refl) Hq) as [T W]. rewrite T, ty_eqb_refl, W. cbn [andb].
+  apply IH. intros x' v' I Q'. apply (H x' v'); [right; exact I|exact Q'].
+Qed.
+Lemma wf_typed_combine {A} w (l : list A) (ks : list (list Z)) vs (Q : A -> val -> Prop) :
+  Forall2 Q l vs -> (forall x v, In x l -> Q x v -> type_of v = w /\ wf v) -> length ks = length l ->
+  forallb (fun p => ty_eqb (type_of (snd p)) w && wfb (snd p)) (combine ks vs) = true.
+Proof.
+  intros F. revert ks. induction F as [|x v l vs Hq _ IH]; intros ks H Len; destruct ks; try discriminate Len;
+    cbn [combine forallb snd]; [reflexivity|].
+  destruct (H x v (or_introl eq_refl) Hq) as [T W]. rewrite T, ty_eqb_refl, W. cbn [andb].
+  apply IH; [|injection Len; auto]. intros x' v' I Q'. apply (H x' v'); [right; exact I|exact Q'].
+Qed.
+Lemma wf_untyped_list {A} (l : list A) vs (Q : A -> val -> Prop) :
+  Forall2 Q l vs -> (forall x v, In x l -> Q x v -> wf v) -> forallb wfb vs = true.
+Proof.
+  induction 1 as [|x v l vs Hq _ IH]; intro H; cbn [forallb]; [reflexivity|].
+  rewrite (H x v (or_introl eq_refl) Hq). apply IH. intros x' v' I Q'. apply (H x' v'); [right; exact I|exact Q'].
+Qed.
+
+Lemma In_wf_list_ty t (l : list val) x :
+  forallb (fun x => ty_eqb (type_of x) t && wfb x) l = true -> In x l -> wf x /\ type_of x = t.
+Proof.
+  intros H I. rewrite forallb_forall in H. apply H in I. apply andb_true_iff in I as [A B].
+  apply ty_eqb_eq in A. split; assumption.
+Qed.
+Lemma In_wf_kv_ty t (l : list (list Z * val)) p :
+  forallb (fun p => ty_eqb (type_of (snd p)) t && wfb (snd p)) l = true -> In p l -> wf (snd p) /\ type_of (snd p) = t.
+Proof.
+  intros H I. rewrite forallb_forall in H. apply (H p) in I. apply andb_true_iff in I as [A B].
+  apply ty_eqb_eq in A. split; assumption.
+Qed.
+
 Lemma convert_wf : forall f v want r, wf v -> convert f v want = COk r -> wf r.
 Proof.
   induction f as [|f IH]; intros v want r W E; [discriminate E|].
-  destruct v; cbn [convert] in E.
-  all: try (cbn [type_of] in E;
-            repeat (bm E; try discriminate E; try (injection E as <-; first [exact W | reflexivity | apply finish_unknown_wf])); fail).
-  - (* list *)
-    unfold wf in W; cbn [wfb] in W.
-    repeat (bm E; try discriminate E).
-    all: try (subst; exfalso; eapply all_ok_inr; [eassumption|reflexivity]).
-    all: injection E as <-; try exact W.
-    all: unfold wf; cbn [wfb]; apply wf_list_of.
-    all: eapply all_ok_wf; [|eassumption]; intros a v Ia Ea.
-    all: eapply IH; [eapply In_wf_list; eassumption|exact Ea].
-  - (* set *)
-    unfold wf in W; cbn [wfb] in W.
-    repeat (bm E; try discriminate E).
-    all: try (subst; exfalso; eapply all_ok_inr; [eassumption|reflexivity]).
-    all: injection E as <-; try exact W.
-    all: unfold wf; cbn [wfb]; apply wf_list_of.
-    all: eapply all_ok_wf; [|eassumption]; intros a v Ia Ea.
-    all: eapply IH; [eapply In_wf_list; eassumption|exact Ea].
-  - (* map *)
-    unfold wf in W; cbn [wfb] in W.
-    repeat (bm E; try discriminate E).
-    all: try (subst; exfalso; eapply all_ok_inr; [eassumption|reflexivity]).
-    all: injection E as <-; try exact W.
-    all: unfold wf; cbn [wfb]; apply wf_combine_snd.
-    all: eapply all_ok_wf; [|eassumption]; intros a v Ia Ea.
-    all: eapply IH; [eapply In_wf_kv; eassumption|exact Ea].
-  - (* tuple *)
-    unfold wf in W; cbn [wfb] in W.
-    repeat (bm E; try discriminate E).
-    all: try (subst; exfalso; eapply all_ok_inr; [eassumption|reflexivity]).
-    all: injection E as <-; try exact W.
-    all: unfold wf; cbn [wfb]; apply wf_list_of.
-    all: eapply all_ok_wf; [|eassumption]; intros a v Ia Ea.
-    + eapply IH; [eapply In_wf_list; eassumption|exact Ea].
-    + destruct a as [x w]. apply in_combine_l in Ia. cbn [fst] in Ea. eapply IH; [eapply In_wf_list; eassumption|exact Ea].
-  - (* object *)
-    unfold wf in W; cbn [wfb] in W.
-    repeat (bm E; try discriminate E).
-    all: try (subst; exfalso; eapply all_ok_inr; [eassumption|reflexivity]).
-    all: injection E as <-; try exact W.
-    all: unfold wf; cbn [wfb]; apply wf_combine_snd.
-    all: eapply all_ok_wf; [|eassumption]; intros a v Ia Ea.
-    + eapply IH; [eapply In_wf_kv; eassumption|exact Ea].
-    + cbn beta in Ea. destruct (assoc_get (fst a) l) eqn:G; [|discriminate Ea]. eapply IH; [eapply wf_assoc_get; eassumption|exact Ea].
-  - (* mark *)
-    destruct (convert f v want) eqn:C; try discriminate E. injection E as <-. apply wf_with_marks.
-    eapply IH; [|exact C]. unfold wf in *. cbn [wfb] in W. apply andb_true_iff in W as [_ W]. exact W.
+  apply convert_inv in E.
+  destruct E as [m v want r' E|v want Hm Et|v Hm|t0 rf want P|t0 want P|n|b|s n En|s b Eb
+                 |t0 l w vs P Hd F|t0 l w vs P Hd F|l w vs P Hd F|l ws vs P F
+                 |t0 kvs w vs P Hd F|kvs w vs P Hd F|kvs ws vs P F];
+    try exact W; try reflexivity.
+  - apply wf_with_marks. eapply IH; [|exact E]. apply wf_mark_inv in W as (_ & _ & W). exact W.
+  - destruct (conv_unknown_rf t0 rf want); [reflexivity|apply finish_unknown_wf].
+  - unfold wf in *. cbn [wfb] in *. eapply wf_typed_list; [exact F|]. intros x v I Hc. cbn beta in Hc.
+    split; [apply (convert_type _ _ _ _ Hc Hd)|eapply IH; [apply (In_wf_list_ty _ _ _ W I)|exact Hc]].
+  - unfold wf in *. cbn [wfb] in *. eapply wf_typed_list; [exact F|]. intros x v I Hc. cbn beta in Hc.
+    split; [apply (convert_type _ _ _ _ Hc Hd)|eapply IH; [apply (In_wf_list_ty _ _ _ W I)|exact Hc]].
+  - unfold wf in *. cbn [wfb] in *. eapply wf_typed_list; [exact F|]. intros x v I Hc. cbn beta in Hc.
+    split; [apply (convert_type _ _ _ _ Hc Hd)|eapply IH; [eapply In_wf_list; eassumption|exact Hc]].
+  - unfold wf in *. cbn [wfb] in *. eapply wf_untyped_list; [exact F|]. intros [x w] v I Hc. cbn [fst snd] in Hc.
+    eapply IH; [|exact Hc]. apply in_combine_l in I. eapply In_wf_list; eassumption.
+  - unfold wf in *. cbn [wfb] in *. eapply (wf_typed_combine w kvs); [exact F| |apply map_length].
+    intros p v I Hc. cbn beta in Hc.
+    split; [apply (convert_type _ _ _ _ Hc Hd)|eapply IH; [apply (In_wf_kv_ty _ _ _ W I)|exact Hc]].
+  - unfold wf in *. cbn [wfb] in *. eapply (wf_typed_combine w kvs); [exact F| |apply map_length].
+    intros p v I Hc. cbn beta in Hc.
+    split; [apply (convert_type _ _ _ _ Hc Hd)|eapply IH; [eapply In_wf_kv; eassumption|exact Hc]].
+  - unfold wf in *. cbn [wfb] in *. apply wf_combine_snd.
+    assert (X : forall (ws0 : list (list Z * ty)) vs0,
+               Forall2 (fun p v => match assoc_get (fst p) kvs with Some x => convert f x (snd p) | None => CErr CEOther end = COk v) ws0 vs0 ->
+               Forall wf vs0).
+    { induction 1 as [|p v ws0 vs0 Hc _ IHF]; constructor; [|exact IHF].
+      destruct (assoc_get (fst p) kvs) eqn:G; [|discriminate Hc]. eapply IH; [eapply wf_assoc_get; eassumption|exact Hc]. }
+    apply X with (ws0 := ws). exact F.
 Qed.
 
 Lemma conv_wf v want r : wf v -> conv v want = COk r -> wf r.
@@ -506,7 +541,7 @@ Proof.
   intros Hpd W E. unfold conv in E. destruct (is_mark v) eqn:Hm.
   - destruct v; try discriminate Hm. cbn [val_size] in E. rewrite convert_mark in E.
     destruct (convert (S (val_size v)) v want) as [r'| |] eqn:C; try discriminate E. injection E as <-.
-    unfold wf in W. cbn [wfb] in W. apply andb_true_iff in W as [N _]. apply negb_true_iff in N.
+    apply wf_mark_inv in W as (_ & N & _).
     pose proof (convert_nomark_pd _ _ _ _ Hpd N C) as Nr.
     rewrite is_star_with_marks. cbn [is_star]. destruct r'; try discriminate Nr; reflexivity.
   - pose proof (convert_nomark_pd _ _ _ _ Hpd Hm E) as Nr.
